@@ -112,8 +112,18 @@ func (w *worker) kill() {
 
 type runner struct{ w *worker }
 
-// call runs one decoder in the worker under a 2 s watchdog.
+// call runs one decoder in the worker under a 2 s watchdog.  A first timeout is re-tried once in a fresh
+// worker with a 20 s limit, so that a scheduling stall of a loaded machine is not reported as a decoder that
+// loops without consuming input (a real spin still exceeds the second limit).
 func (r *runner) call(kind string, data []byte) (res string, alloc uint64) {
+	res, alloc = r.callLimit(kind, data, 2*time.Second)
+	if res == "timeout" {
+		res, alloc = r.callLimit(kind, data, 20*time.Second)
+	}
+	return res, alloc
+}
+
+func (r *runner) callLimit(kind string, data []byte, limit time.Duration) (res string, alloc uint64) {
 	if r.w == nil {
 		r.w = startWorker()
 	}
@@ -137,7 +147,7 @@ func (r *runner) call(kind string, data []byte) (res string, alloc uint64) {
 		tab := strings.IndexByte(line, '\t')
 		fmt.Sscanf(line[:tab], "%d", &alloc)
 		return line[tab+1:], alloc
-	case <-time.After(2 * time.Second):
+	case <-time.After(limit):
 		r.w.kill()
 		r.w = nil
 		return "timeout", 0
